@@ -75,8 +75,8 @@ func Catalogue(tier string) []*ISystem {
 				Probes: [][4]int{{1, 0, 0, 0}, {0, 0, 1, 0}}, Wins: [][2]int{{0, 2}, {2, 3}, {1, 1}, {-1, 0}}, Statuses: []string{"SUSPENDED", "ACTIVE", "REVOKED"}, Time: true},
 			&ISystem{name: "dlv-all", NW: 2, NS: 1, Buf: 1, Exp: []int{1, 2}, Tg: [][4]int{{1, 0, 0, 0}, {0, 1, 0, 0}}, Ty: []string{"IRI+CC", "IRI"}, Me: []int{1, 2},
 				Probes: [][4]int{{1, 1, 0, 0}}, Wins: [][2]int{long}, Evts: []string{"AUTH_SUCCESS"}, Lens: []int{100}, Hold: []int{1}, Fail: []int{1}},
-			&ISystem{name: "dlv-big", NW: 3, NS: 2, Buf: 3, Exp: []int{1, 2}, Tg: [][4]int{{1, 0, 0, 0}, {0, 1, 0, 0}, {1, 1, 0, 0}}, Ty: []string{"IRI+CC", "IRI", "CC"}, Me: []int{1, 2, 3},
-				Probes: [][4]int{{1, 1, 0, 0}}, Wins: [][2]int{long}, Evts: []string{"AUTH_SUCCESS"}, Lens: []int{100}, Hold: []int{1, 2}, Fail: []int{2}},
+			&ISystem{name: "dlv-big", NW: 2, NS: 2, Buf: 2, Exp: []int{1, 2}, Tg: [][4]int{{1, 0, 0, 0}, {1, 1, 0, 0}}, Ty: []string{"IRI+CC", "IRI"}, Me: []int{1, 2},
+				Probes: [][4]int{{1, 1, 0, 0}}, Wins: [][2]int{long}, Evts: []string{"AUTH_SUCCESS"}, Lens: []int{100}, Hold: []int{1}, Fail: []int{2}},
 		)
 	}
 	return l
@@ -167,7 +167,7 @@ func TestExplore(t *testing.T) {
 	}
 	nchains, chainLen := 8, 120
 	if tier == "thorough" {
-		maxNodes = 30000
+		maxNodes = 5000
 		nchains, chainLen = 80, 300
 	}
 	bundle := &core.Bundle{}
